@@ -1148,15 +1148,18 @@ pub mod implementations {
             bail!("store_skip can only store a single item");
         }
 
-        let arg = ctx.get_last_op_item().unwrap();
+        // the operand may be a pointer to a bool (list element, field): test, and leave behind, its value
+        let arg = ctx.pop().unwrap().move_out_of_heap_primitive()?;
 
         let Primitive::Bool(val) = arg else {
             bail!("store_skip can only operate on bool (found {arg})");
         };
 
+        ctx.push(arg);
+
         if predicate == 1 {
             // skip if true
-            if *val {
+            if val {
                 ctx.signal(InstructionExitState::Goto(lines_to_jump));
                 return Ok(());
             }
@@ -1367,7 +1370,7 @@ pub mod implementations {
             bail!("if statements require at least one entry in the local stack")
         }
 
-        let item = ctx.pop().unwrap();
+        let item = ctx.pop().unwrap().move_out_of_heap_primitive()?;
         ctx.clear_stack();
 
         let Primitive::Bool(b) = item else {
@@ -1393,7 +1396,7 @@ pub mod implementations {
             bail!("while statements require at least one entry in the local stack")
         }
 
-        let item = ctx.pop().unwrap();
+        let item = ctx.pop().unwrap().move_out_of_heap_primitive()?;
         ctx.clear_stack();
 
         let Primitive::Bool(b) = item else {
